@@ -1517,7 +1517,19 @@ class Module(ABC):
         comp_states, edge_states = self._get_state_names()
         if state not in comp_states + edge_states:
             raise KeyError(f"{state} is not a recognized state in this module.")
-        in_view = self._nodes_in_view if state in comp_states else self._edges_in_view
+        if state in comp_states:
+            in_view = self._nodes_in_view
+        else:
+            # Only synapses of the type which has this state (or current) can be recorded.
+            synapse_types = [
+                synapse._name
+                for synapse in self.base.synapses
+                if synapse is not None
+                and (state in synapse.synapse_states or state == f"i_{synapse._name}")
+            ]
+            in_view = self._edges_in_view
+            has_state = self.base.edges.loc[in_view, "type"].isin(synapse_types)
+            in_view = in_view[has_state.to_numpy()]
 
         new_recs = pd.DataFrame(in_view, columns=["rec_index"])
         new_recs["state"] = state
